@@ -210,6 +210,8 @@ impl Directive {
                 }
             }
             Directive::Device => {
+                #[cfg(avra_rs_verif)]
+                crate::verif_hook::yield_point(10);
                 if let DirectiveOps::OpList(values) = opts {
                     if let Operand::E(Expr::Ident(value)) = &values[0] {
                         if let Some(device) = DEVICES.get(value.as_str()) {
